@@ -78,10 +78,15 @@ def _run_chunk(harness, header, execs, wd, tag, timeout, env, extra_args):
     return results
 
 
-def execute(chk, harness, header, execs, nproc=None, timeout=900, env=None, extra_args=(), tag="t"):
-    """run executions on the real library; returns list of (exec_lines, events)"""
+def execute(chk, harness, header, execs, nproc=None, timeout=900, env=None, extra_args=(), tag="t", per_process=False):
+    """run executions on the real library; returns list of (exec_lines, events).
+    per_process: one harness process per execution (needed when teardown at exit is part of the execution)"""
     nproc = nproc or min(vlib.NCPU, max(1, len(execs) // 4), 12)
-    chunks = [c for c in (execs[i::nproc] for i in range(nproc)) if c]
+    if per_process:
+        chunks = [[e] for e in execs]
+        nproc = min(vlib.NCPU, 14)
+    else:
+        chunks = [c for c in (execs[i::nproc] for i in range(nproc)) if c]
     with concurrent.futures.ThreadPoolExecutor(max_workers=nproc) as ex:
         futs = [ex.submit(_run_chunk, harness, header, c, chk.wd, "%s%d" % (tag, i), timeout, env, extra_args)
                 for i, c in enumerate(chunks)]
@@ -156,7 +161,8 @@ class Campaign:
     (one JVM start per chunk instead of per run).  report() applies the verdict rule of DESIGN.md 2.4
     (reproduce once, then VIOLATION unless a known finding matches)."""
 
-    def __init__(self, chk, harness, module, cfg, env=None, tlc_env=None, extra_args=()):
+    def __init__(self, chk, harness, module, cfg, env=None, tlc_env=None, extra_args=(), per_process=False):
+        self.per_process = per_process
         self.chk, self.harness, self.module, self.cfg = chk, harness, module, cfg
         self.env, self.tlc_env, self.extra_args = env, tlc_env, extra_args
         self.accepted = 0
@@ -171,7 +177,7 @@ class Campaign:
         if self.enough() or not execs:
             return
         pairs = execute(self.chk, harness or self.harness, header, execs, env=self.env, extra_args=self.extra_args,
-                        tag=origin.replace("/", "_"))
+                        tag=origin.replace("/", "_"), per_process=self.per_process)
         self.pending += [(l, e, (header, origin, harness or self.harness)) for (l, e) in pairs]
         for e in execs:
             self.chk.seen("|".join(e) + "#" + variant + origin)
